@@ -151,6 +151,24 @@ template <class M> int run(const char *file, const std::vector<std::string> &voc
         std::vector<unsigned> ids; std::string x;
         while (in >> x) ids.push_back(strtoul(x.c_str(), NULL, 16));
         std::cout << r.score(bos, ids) << '\n';
+      } else if (cmd == "K") {
+        // State comparison operators on raw states (words are arbitrary uint32, hex)
+        State a, b; a.length = 0; b.length = 0; State *cur = &a; std::string x;
+        memset(a.words, 0xcd, sizeof a.words); memset(b.words, 0x3a, sizeof b.words);   // garbage beyond length must not matter
+        while (in >> x) { if (x == ";") { cur = &b; continue; } cur->words[cur->length++] = strtoul(x.c_str(), NULL, 16); }
+        int c = a.Compare(b);
+        std::cout << (a == b ? 1 : 0) << ' ' << (c < 0 ? '-' : c > 0 ? '+' : '0') << ' ' << (a < b ? 1 : 0)
+                  << ' ' << (hash_value(a) == hash_value(b) ? 1 : 0) << '\n';
+      } else if (cmd == "L") {
+        Left a, b; unsigned l1, f1, l2, f2; std::string p1, p2;
+        in >> l1 >> p1 >> f1 >> l2 >> p2 >> f2;
+        memset(a.pointers, 0x11, sizeof a.pointers); memset(b.pointers, 0x22, sizeof b.pointers);
+        a.length = l1; a.full = f1; b.length = l2; b.full = f2;
+        if (l1) a.pointers[l1 - 1] = strtoull(p1.c_str(), NULL, 16);
+        if (l2) b.pointers[l2 - 1] = strtoull(p2.c_str(), NULL, 16);
+        int c = a.Compare(b);
+        std::cout << (a == b ? 1 : 0) << ' ' << (c < 0 ? '-' : c > 0 ? '+' : '0') << ' ' << (a < b ? 1 : 0)
+                  << ' ' << (hash_value(a) == hash_value(b) ? 1 : 0) << '\n';
       } else if (cmd == "C") {
         std::vector<std::string> toks; std::string x;
         while (in >> x) toks.push_back(x);
